@@ -165,6 +165,14 @@ main (void)
           if (memcmp (b64, c64, 64)) VIOL ("encrypt and encrypt_r disagree");
           printf ("D e=");
           for (int i = 0; i < 8; i++) { int v = 0; for (int j = 0; j < 8; j++) v = (v << 1) | (b64[i * 8 + j] & 1); printf ("%02x", v); }
+          /* old binaries may pass any non-zero edflag to decrypt */
+          static const int fl[] = { 1, 2, -1, 256, 2147483647 };
+          old_encrypt (b64, fl[(k[0] ^ b[1]) % 5]);
+          old_encrypt_r (c64, fl[(k[1] ^ b[0]) % 5], big);
+          printf (" d=");
+          for (int i = 0; i < 8; i++) { int v = 0; for (int j = 0; j < 8; j++) v = (v << 1) | (b64[i * 8 + j] & 1); printf ("%02x", v); }
+          printf (" dr=");
+          for (int i = 0; i < 8; i++) { int v = 0; for (int j = 0; j < 8; j++) v = (v << 1) | (c64[i * 8 + j] & 1); printf ("%02x", v); }
           printf ("\n");
           free (k); free (b);
         }
